@@ -1,6 +1,8 @@
 mod engine;
 mod hist;
+mod joinworld;
 mod props_hist;
+mod props_join;
 mod props_seq;
 mod stoseq;
 mod zoo;
@@ -16,8 +18,12 @@ fn registry() -> Vec<Property> {
         props_hist::c09::property(),
         props_hist::c17::property(),
         props_seq::c04(),
+        props_join::c06(),
+        props_join::c07(),
+        props_join::c16(),
         props_seq::c08(),
         props_seq::c12(),
+        props_seq::c13(),
         props_seq::c19(),
     ]
 }
